@@ -239,11 +239,21 @@ macro "ns_leaf" : tactic => `(tactic| first
 
 macro "split_all" : tactic => `(tactic| repeat' (first | split | (dsimp only)))
 
-theorem computedExecute_nostruct (sub : SubRun) (hsub : NoStructSub sub) (g : G) (c a : Nat) :
-    NoStruct (computedExecute sub g c a).2 := by
-  unfold computedExecute
+theorem computedExecuteCore_nostruct (sub : SubRun) (hsub : NoStructSub sub) (g : G) (c a : Nat) :
+    NoStruct (computedExecuteCore sub g c a).2 := by
+  unfold computedExecuteCore
   split_all
   all_goals ns_leaf
+
+theorem withCall_nostruct {α} (g : G) (k : G → G × Res α) (h : ∀ g', NoStruct (k g').2) : NoStruct (withCall g k).2 := by
+  unfold withCall
+  split
+  · exact nostruct_err _
+  · exact h _
+
+theorem computedExecute_nostruct (sub : SubRun) (hsub : NoStructSub sub) (g : G) (c a : Nat) :
+    NoStruct (computedExecute sub g c a).2 :=
+  withCall_nostruct g _ (fun g' => computedExecuteCore_nostruct sub hsub g' c a)
 
 
 theorem walk_nostruct (sub : SubRun) (hsub : NoStructSub sub) (c : Nat) (name : String) (isRaw : Bool) :
@@ -271,11 +281,15 @@ macro "ns_leaf2" : tactic => `(tactic| first
   | (intro s' hs'; cases hs'; exact of_eq_panic (computedExecute_nostruct _ ‹_› _ _ _) (by rw [‹computedExecute _ _ _ _ = _›]))
   | (intro s' hs'; cases hs'; exact of_eq_panic (loadName_nostruct _ ‹_› _ _ _ _) (by rw [‹loadName _ _ _ _ _ = _›])))
 
-theorem funcInvoke_nostruct (sub : SubRun) (hsub : NoStructSub sub) (g : G) (c a : Nat) (args : List Val) :
-    NoStruct (funcInvoke sub g c a args).2 := by
-  unfold funcInvoke
+theorem funcInvokeCore_nostruct (sub : SubRun) (hsub : NoStructSub sub) (g : G) (c a : Nat) (args : List Val) :
+    NoStruct (funcInvokeCore sub g c a args).2 := by
+  unfold funcInvokeCore
   split_all
   all_goals ns_leaf2
+
+theorem funcInvoke_nostruct (sub : SubRun) (hsub : NoStructSub sub) (g : G) (c a : Nat) (args : List Val) :
+    NoStruct (funcInvoke sub g c a args).2 :=
+  withCall_nostruct g _ (fun g' => funcInvokeCore_nostruct sub hsub g' c a args)
 
 theorem attrGet_nostruct (sub : SubRun) (hsub : NoStructSub sub) (g : G) (c : Nat) (v : Val) (name : String) :
     NoStruct (attrGet sub g c v name).2 := by
